@@ -40,6 +40,11 @@ HalfP == NShr(NSub(WP, NOfInt(1)), 1)
 YBoundary(e) == LET P == Point(e) IN NShr(P[2], 192) = NShr(HalfP, 192)
 Class(e, why) == IF why = "accept" /\ YBoundary(e) THEN "accept-yboundary" ELSE why
 
+(* the receiver's previous contents must not matter *)
+UsedDevs(l0, e) ==
+  IF ~Has(e, "err_used") \/ Has(e, "panic") THEN <<>>
+  ELSE One(e.err_used = e.err /\ (e.err \/ e.out_used = e.out), l0, "C06", <<e.fn, "decoding into a receiver that already held an element gives a different outcome">>, <<"decode", e.fn, "receiver-state">>)
+
 DecodeDevs(l0, e, why) ==
   LET sig(x) == <<"decode", e.fn, x>> IN
   IF Has(e, "panic") THEN <<Dev(l0, "C06", <<e.fn, "panicked", e.panic>>, sig("panic"))>>
